@@ -110,7 +110,7 @@ def replay_cmd(path):
     return 0
 
 
-def run_check(mod, tier, seed, workers=None, keep_digests=False, extra_env=None, quiet=False, hashseeds=None, out_dir=None):
+def run_check(mod, tier, seed, workers=None, keep_digests=False, extra_env=None, quiet=False, hashseeds=None, out_dir=None, reverse=False):
     global REPLAYS, EVIDENCE
     if out_dir:
         REPLAYS, EVIDENCE = os.path.join(out_dir, "replays"), os.path.join(out_dir, "evidence")
@@ -131,7 +131,7 @@ def run_check(mod, tier, seed, workers=None, keep_digests=False, extra_env=None,
             for w in range(per):
                 out = os.path.join(scratch, f"w-{h}-{w}.json")
                 job = {"prop": prop, "seed": seed, "tier": tier, "shard": w, "nshards": per, "n": n, "deadline_s": cap,
-                       "out": out, "digests": bool(compare_hs or keep_digests), "hard_timeout_s": cap * 3 + 300}
+                       "out": out, "digests": bool(compare_hs or keep_digests), "hard_timeout_s": cap * 3 + 300, "reverse": bool(reverse)}
                 procs.append(spawn(job, h, extra_env))
                 outs.append(out)
                 meta.append((h, w))
